@@ -8,7 +8,6 @@ import (
 	"encoding/json"
 	"fmt"
 	"os"
-	"sort"
 	"strconv"
 	"strings"
 	"sync"
@@ -196,12 +195,11 @@ func emitSched(args []string) {
 		}
 		return bodies, func() string {
 			items := drain()
-			var idx []int
+			var idx []string
 			for _, it := range items {
-				idx = append(idx, int(it.Index))
+				idx = append(idx, strconv.FormatInt(it.Index, 10))
 			}
-			sort.Ints(idx)
-			return fmt.Sprintf("n=%d idx=%v matched=%d count=%d", len(items), idx, stats.MatchedPairs, stream.GetIndex())
+			return fmt.Sprintf("n=%d idx=%s matched=%d count=%d", len(items), strings.Join(idx, ","), stats.MatchedPairs, stream.GetIndex())
 		}
 	}, 10000, maxRuns, func(steps []sched.Step, obs string, err error) bool {
 		o := schedOut{Steps: steps, Obs: obs}
